@@ -214,37 +214,57 @@ func genReflect(out string, root, irefl *pkgFiles) {
 	envGoNames := false
 	if fd := irefl.fn("PopulateStructFields"); fd != nil && fd.Type.Params != nil && len(fd.Type.Params.List) > 0 && len(fd.Type.Params.List[0].Names) > 0 {
 		mapName := fd.Type.Params.List[0].Names[0].Name
-		loops, lastGoName, anyGoName := 0, false, false
-		for _, st := range fd.Body.List {
-			var body *ast.BlockStmt
-			switch x := st.(type) {
-			case *ast.RangeStmt:
-				body = x.Body
-			case *ast.ForStmt:
-				body = x.Body
-			}
-			if body == nil {
-				continue
-			}
-			writes, goName := false, false
-			ast.Inspect(body, func(n ast.Node) bool {
-				if as, isAs := n.(*ast.AssignStmt); isAs && len(as.Lhs) == 1 {
-					if ie, isIdx := as.Lhs[0].(*ast.IndexExpr); isIdx && exprString(ie.X) == mapName {
-						writes = true
-						if se, isSel := ie.Index.(*ast.SelectorExpr); isSel && se.Sel.Name == "Name" {
-							if _, isId := se.X.(*ast.Ident); isId {
-								goName = true
+		analyse := func(list []ast.Stmt, mapName string) (loops int, lastGoName, anyGoName bool) {
+			for _, st := range list {
+				var body *ast.BlockStmt
+				switch x := st.(type) {
+				case *ast.RangeStmt:
+					body = x.Body
+				case *ast.ForStmt:
+					body = x.Body
+				}
+				if body == nil {
+					continue
+				}
+				writes, goName := false, false
+				ast.Inspect(body, func(n ast.Node) bool {
+					if as, isAs := n.(*ast.AssignStmt); isAs && len(as.Lhs) == 1 {
+						if ie, isIdx := as.Lhs[0].(*ast.IndexExpr); isIdx && exprString(ie.X) == mapName {
+							writes = true
+							if se, isSel := ie.Index.(*ast.SelectorExpr); isSel && se.Sel.Name == "Name" {
+								if _, isId := se.X.(*ast.Ident); isId {
+									goName = true
+								}
 							}
 						}
 					}
+					return true
+				})
+				if writes {
+					loops++
+					lastGoName = goName
+					anyGoName = anyGoName || goName
+				}
+			}
+			return
+		}
+		loops, lastGoName, anyGoName := analyse(fd.Body.List, mapName)
+		if loops == 0 {
+			// the struct part moved into a helper that is handed the map (`populateFromStruct(m, rv)`, possibly from a switch on the kind)
+			ast.Inspect(fd.Body, func(n ast.Node) bool {
+				ce, isCall := n.(*ast.CallExpr)
+				if !isCall || loops != 0 || len(ce.Args) == 0 || exprString(ce.Args[0]) != mapName {
+					return true
+				}
+				id, isID := ce.Fun.(*ast.Ident)
+				if !isID {
+					return true
+				}
+				if h := irefl.fn(id.Name); h != nil && h.Body != nil && h.Type.Params != nil && len(h.Type.Params.List) > 0 && len(h.Type.Params.List[0].Names) > 0 {
+					loops, lastGoName, anyGoName = analyse(h.Body.List, h.Type.Params.List[0].Names[0].Name)
 				}
 				return true
 			})
-			if writes {
-				loops++
-				lastGoName = goName
-				anyGoName = anyGoName || goName
-			}
 		}
 		if loops == 0 || loops > 2 {
 			fail("PopulateStructFields", fmt.Errorf("%d loops writing into the map, expected 1 or 2", loops))
@@ -1114,20 +1134,60 @@ func genFmtLists(repo, out string) {
 	for _, it := range [][2]string{{"isVoidElement", "fmtVoid"}, {"isInlineAtom", "fmtInline"}, {"isPhrasingContainer", "fmtPhrasing"}} {
 		var names []string
 		if fd := fp.fn(it[0]); fd != nil {
-			ast.Inspect(fd.Body, func(n ast.Node) bool {
-				cl, ok := n.(*ast.CompositeLit)
-				if !ok {
-					return true
-				}
+			// the atoms of a composite literal: list elements `atom.X`, or the keys `atom.X: true` of a set
+			atomsOf := func(cl *ast.CompositeLit) {
 				for _, e := range cl.Elts {
+					if kv, isKV := e.(*ast.KeyValueExpr); isKV {
+						if exprString(kv.Value) != "true" && exprString(kv.Value) != "struct{}{}" && exprString(kv.Value) != "{}" {
+							if _, isLit := kv.Value.(*ast.CompositeLit); !isLit {
+								continue
+							}
+						}
+						e = kv.Key
+					}
 					if sel, ok := e.(*ast.SelectorExpr); ok {
 						if id, ok := sel.X.(*ast.Ident); ok && id.Name == "atom" {
 							names = append(names, strings.ToLower(sel.Sel.Name))
 						}
 					}
 				}
+			}
+			ast.Inspect(fd.Body, func(n ast.Node) bool {
+				cl, ok := n.(*ast.CompositeLit)
+				if !ok {
+					return true
+				}
+				atomsOf(cl)
 				return false
 			})
+			if len(names) == 0 {
+				// the list lives in a package-level table the function looks the atom up in (`return voidElements[a]`, a loop over `inlineAtoms`)
+				ast.Inspect(fd.Body, func(n ast.Node) bool {
+					id, ok := n.(*ast.Ident)
+					if !ok || len(names) > 0 {
+						return true
+					}
+					for _, f := range fp.files {
+						for _, d := range f.Decls {
+							gd, isGen := d.(*ast.GenDecl)
+							if !isGen || gd.Tok != token.VAR {
+								continue
+							}
+							for _, sp := range gd.Specs {
+								vs := sp.(*ast.ValueSpec)
+								for i, nm := range vs.Names {
+									if nm.Name == id.Name && i < len(vs.Values) {
+										if cl, isLit := vs.Values[i].(*ast.CompositeLit); isLit {
+											atomsOf(cl)
+										}
+									}
+								}
+							}
+						}
+					}
+					return true
+				})
+			}
 		} else {
 			fail("formatter", fmt.Errorf("formatter.%s not found", it[0]))
 		}
